@@ -364,10 +364,87 @@ def check(case):
         return _check(case)
 
 
+def check_substeps_language(case):
+    """History inside a run: a step of a feature written in language L hands a steps text to context.execute_steps()
+    -- first one that is no Gherkin at all (ParserError, caught by the step), then well-formed steps in language L:
+    keywords, step types and names of the sub-steps are those written in the text, in L."""
+    from behave import i18n, parser
+    from behave.configuration import Configuration
+    from behave.matchers import ParseMatcher
+    from behave.parser import ParserError
+    from behave.runner import ModelRunner
+    from behave.step_registry import StepRegistry
+    res = CaseResult()
+    lang = case["lang"]
+    kws = i18n.languages[lang]
+
+    def first(kind, k=0):
+        words = [w for w in kws[kind] if w.strip() != u"*"]
+        return words[k % len(words)]
+    k = case.get("alias", 0)
+    subs = [(first("given", k), "given", u"sub 1"), (first("and", k), "given", u"sub 2"),
+            (first("when", k), "when", u"sub 3"), (first("then", k), "then", u"sub 4"),
+            (first("but", k), "then", u"sub 5")]
+    good = u"\n".join(u"%s%s" % (kw, name) for kw, _t, name in subs)
+    bad = case.get("bad") or u"Bogus words that are no step at all"
+    text = u"# language: %s\n%s: F\n  %s: S\n    %souter step\n    %ssecond outer step\n" % (
+        lang, kws["feature"][0], kws["scenario"][0], first("given"), first("when"))
+    feature = parser.parse_feature(text, filename="features/sub.feature")
+    seen = []
+    notes = {}
+
+    def outer(context):
+        try:
+            context.execute_steps(bad)
+            notes["bad"] = "accepted"
+        except ParserError:
+            notes["bad"] = "ParserError"
+
+    def second(context):
+        context.execute_steps(good)
+
+    def sub(context, n):
+        seen.append(n)
+    registry = StepRegistry()
+    for stype, pattern, fn in (("step", u"outer step", outer), ("step", u"second outer step", second),
+                               ("step", u"sub {n:d}", sub)):
+        registry.steps[stype].append(ParseMatcher(fn, pattern, step_type=stype))
+    config = Configuration(["--no-color", "--no-summary", "-f", "null"], load_config=False)
+    config.reporters = []
+    runner = ModelRunner(config, [feature], step_registry=registry)
+    import io
+    import sys
+    old = sys.stdout
+    sys.stdout = io.StringIO()
+    try:
+        runner.run()
+    finally:
+        sys.stdout = old
+    res.nontrivial = lang != "en"
+    res.label("substeps-after-rejected-text", "substeps:" + ("english" if lang == "en" else "non-english"))
+    steps = list(feature.scenarios[0].steps)
+    if notes.get("bad") != "ParserError":
+        res.label("substeps:first-text-" + str(notes.get("bad")))
+    if steps[1].status.name != "passed" or seen != [1, 2, 3, 4, 5]:
+        res.fail("C04.substeps.language", "language %s: after a rejected steps text, the well-formed steps %r given to "
+                 "execute_steps() ended %s (sub-steps executed: %s): %s"
+                 % (lang, good, steps[1].status.name, seen, (steps[1].error_message or u"").strip()[-300:]))
+    return res
+
+
+def substeps_enumeration():
+    from behave import i18n
+    for lang in sorted(i18n.languages):
+        for alias in (0, 1):
+            yield {"kind": "substeps", "lang": lang, "alias": alias}
+
+
 def _check(case):
     from behave import parser
     res = CaseResult()
     kind = case.get("kind", "doc")
+    if kind == "substeps":
+        return check_substeps_language(case)
     feat = sanitize(case["feature"])
     case = dict(case, feature=feat)
     if kind in ("doc", "alias"):
@@ -636,6 +713,7 @@ def partial_case(draw):
 def explore(rec):
     quick = rec.tier == "quick"
     rec.enum("all-languages-all-aliases", alias_enumeration())
+    rec.enum("all-languages/sub-steps-after-a-rejected-steps-text", substeps_enumeration())
     rec.hyp("random-documents", st.builds(lambda f, c: {"kind": "doc", "feature": f, "crlf": c}, feature_st(),
                                           st.sampled_from([False, False, True, 2])), 4000 if quick else 80000)
     rec.hyp("random-documents-via-file", st.builds(lambda f, c: {"kind": "doc", "feature": f, "via_file": True, "crlf": c},
@@ -646,7 +724,8 @@ def explore(rec):
 
 def required_labels(tier):
     return ["examples-without-table:last-of-its-outline", "rule", "outline>=2examples", "docstring", "escaped-pipe", "non-english", "noise", "and-but-star", "alias",
-            "via-file", "line-endings:crlf", "line-endings:cr", "parser-reuse", "parser-reuse:non-english", "describe-roundtrip", "entry:steps", "entry:scenario", "entry:rule", "entry:tags"]
+            "via-file", "line-endings:crlf", "line-endings:cr", "parser-reuse", "parser-reuse:non-english", "describe-roundtrip", "entry:steps", "entry:scenario", "entry:rule", "entry:tags",
+            "substeps:non-english"]
 
 
 KNOWN_PREDICATES = {}
@@ -654,3 +733,4 @@ KNOWN_PREDICATES = {}
 
 RULE = RULE + " " + ("History: after parse_file() of a document with a '# language:' header the feature's parser object parses a steps text in that language (what context.execute_steps does) and must report the scenario's own steps.")
 RULE = RULE + " " + ('One Examples section in eight has no table at all (tolerated by the parser: its table is None and later tables stay with their steps).')
+RULE = RULE + " " + ('For every language: a running step hands context.execute_steps() first a text that is no Gherkin (ParserError, caught) and then well-formed steps in the feature language: all of them are parsed and executed as written.')
